@@ -4,6 +4,7 @@ import SJ.Proofs.NopExact
 import SJ.Proofs.Located
 import SJ.Proofs.Rebuild
 import SJ.Proofs.DecodeSound
+import SJ.Proofs.GoSerialize
 /-
 C17 — Every produced tape obeys the documented tape format.
 -/
@@ -78,5 +79,36 @@ theorem C17_deser_nops_exact (pj : PJ) (d : List JVal) (hash : Bytes → Nat) (h
     (init : Array UInt64) (hi : init.size = sec.tapeSize) (pj' : PJ) (hd : deserializeSections sec init = .ok pj') :
     nopsExact pj' = none :=
   NopExact.deser_nops_exact pj d hash hwf hsz hb sec hs init hi pj' hd
+
+open SJ.GoSem SJ.Generated SJ.GoIter SJ.GoObject SJ.GoSerialize in
+/-- **Source tie** (DESIGN §6.3). The tape loop of `Serializer.Serialize`, `Serializer.indexString` and the assembly of
+    the container (`parsed_serialize.go`) are printed from /repo as syntax trees on every run (`runtime.memhash`, seeded
+    per process, is an oracle whose answers are given in advance; the block writers are the byte streams they receive;
+    `PutUint64`/`PutUvarint` by contract). Their meaning under `GoSem.exec` is the model's `serLoop`/`indexString` and
+    `encodeSections`, the encoder of `C17_roundtrip`: the same tag stream, value stream and deduplicated string buffer
+    for every hash function (chunked flushing included), a panic exactly when the model panics; the container bytes
+    exactly `encodeSections` when every length fits 8 varint bytes (`AsmFits`, < 2^56) and a panic otherwise.
+    `NoMaxLenString` excludes strings of 4 GiB − 1 bytes, where Go's `indexString` panics and the model does not
+    (proved as `long_string_model_ok` / `long_string_source_panics` in `Proofs/GoSerialize`). -/
+theorem C17_serialize_follows_source :
+    -- the tape loop
+    (∀ (pj : PJ) (hash : Bytes → Nat) (tb vb : Bytes) (F : Nat), BufOK pj → NoMaxLenString pj → tb.size = 65536 →
+      pj.tape.size + 2 ≤ F →
+      SerSim pj (runFun goFuns goSerialize_loop F (loopStore pj hash tb vb)) (serLoop pj hash {} 0 (pj.tape.size + 1))) ∧
+    -- the assembly
+    (∀ (n : Nat) (m t v sb d0 tmp : Bytes) (rt rv : Nat) (tape : Array UInt64) (fuel : Nat), tmp.size = 8 →
+      AsmInts n m.size t.size v.size sb.size rt rv →
+      (AsmFits n m.size t.size v.size sb.size rt rv →
+        ∃ s', runFun goFuns goSerialize_assemble fuel (asmStore n m t v sb d0 tmp rt rv tape) =
+          .ret s' [.bytes (d0 ++ asmOut n m t v sb.size rt rv)] ∧ s'.tape = tape) ∧
+      (¬ AsmFits n m.size t.size v.size sb.size rt rv →
+        runFun goFuns goSerialize_assemble fuel (asmStore n m t v sb d0 tmp rt rv tape) = .panic)) ∧
+    -- what the assembly returns is the model's container
+    (∀ (blk : Bytes → Bytes) (sec : Sections),
+      asmOut sec.tapeSize (blk sec.msg) (blk sec.tags) (blk sec.values) sec.msg.size sec.tags.size sec.values.size =
+        encodeSections blk sec) ∧
+    -- `binary.PutUvarint` of the interpreter is the model's
+    (∀ x, uvarintBytes x = putUvarint x) :=
+  SJ.GoSerialize.go_serialize_source_tie 
 
 end SJ.Properties.C17
